@@ -18,26 +18,29 @@ func init() {
 
 // reviewed sites: function/kind#ordinal -> invariant
 // I1: a table offset handed to listStack/messageStack is the tableStart of an open stack entry (R16.4 proves every
-//     caller passes exactly that field); it was recorded as len(stack) when the object was opened, the table stacks
-//     are truncated only by pop(tableStart) of the innermost open object (LIFO, R12.4/R12.5), so
-//     0 <= tableStart <= len(stack) while the object is open.
+//
+//	caller passes exactly that field); it was recorded as len(stack) when the object was opened, the table stacks
+//	are truncated only by pop(tableStart) of the innermost open object (LIFO, R12.4/R12.5), so
+//	0 <= tableStart <= len(stack) while the object is open.
+//
 // I2: entry.start is buf.Len() at the time the object was opened and the output buffer only grows until the object
-//     ends, so 0 <= start <= buf.Len().
+//
+//	ends, so 0 <= start <= buf.Len().
 var r12Reviewed = map[string]string{
-	"internal/writer.listStack.len/slice#1":          "I1",
-	"internal/writer.listStack.pop/slice#1":          "I1",
-	"internal/writer.listStack.pop/slice#2":          "I1",
-	"internal/writer.messageStack.hasField/slice#1":  "I1",
-	"internal/writer.messageStack.insert/slice#1":    "I1",
-	"internal/writer.messageStack.pop/slice#1":       "I1",
-	"internal/writer.messageStack.pop/slice#2":       "I1",
+	"internal/writer.listStack.len/slice#1":           "I1",
+	"internal/writer.listStack.pop/slice#1":           "I1",
+	"internal/writer.listStack.pop/slice#2":           "I1",
+	"internal/writer.messageStack.hasField/slice#1":   "I1",
+	"internal/writer.messageStack.insert/slice#1":     "I1",
+	"internal/writer.messageStack.pop/slice#1":        "I1",
+	"internal/writer.messageStack.pop/slice#2":        "I1",
 	"internal/writer.messageStack.hasField$1/index#1": "sort.Search calls its predicate only with 0 <= i < n, n = len(table) (standard library contract)",
 	"internal/writer.messageStack.hasField/index#1":   "dominated by the return under n >= len(table); `table` is captured by the search predicate, which only reads it, so the two loads of the variable are the same slice (R16.4 checks the shape of this function)",
-	"internal/writer.writer.endElement/slice#1":      "I2",
-	"internal/writer.writer.endField/slice#1":        "I2",
-	"internal/writer.writer.endList/slice#1":         "I2",
-	"internal/writer.writer.endMessage/slice#1":      "I2",
-	"internal/writer.writer.endValue/slice#1":        "I2",
+	"internal/writer.writer.endElement/slice#1":       "I2",
+	"internal/writer.writer.endField/slice#1":         "I2",
+	"internal/writer.writer.endList/slice#1":          "I2",
+	"internal/writer.writer.endMessage/slice#1":       "I2",
+	"internal/writer.writer.endValue/slice#1":         "I2",
 }
 
 func runR12_7(c *Ctx, r *R) {
